@@ -506,7 +506,8 @@ fn run_random(sid: &str, seed: u64, nev: usize, tr: &mut Trace, cov: &mut Cov) -
                 _ => PropertyValue::Boolean(rng.gen()),
             });
         } else {
-            ki = *pick(&mut rng, &[0usize, 0, 0, 1, 1, 1, 2, 2, 3]);
+            // k2 is left alone while it is being built row by row (a far write would postpone its promotion)
+            ki = if plan.is_empty() { *pick(&mut rng, &[0usize, 0, 0, 1, 1, 1, 2, 2, 3]) } else { *pick(&mut rng, &[0usize, 0, 1, 1, 3]) };
             let key = keys[ki];
             let g = sess.geom(key);
             let (lo, hi) = band[ki];
